@@ -368,6 +368,79 @@ func runC19(r *Run) {
 							}
 						}
 					})
+					// a collecting callback lists every element: the branches over which it returns without appending ask
+					// only about the element's dynamic type (a comma-ok assertion) or its address length (R8)
+					{
+						isAppend := func(in ssa.Instruction) bool {
+							if st, ok := in.(*ssa.Store); ok {
+								// merging the element into an entry that is already listed (balances[idx].Coins = …) lists it too
+								a := st.Addr
+								for {
+									if fa, ok := a.(*ssa.FieldAddr); ok {
+										a = fa.X
+										continue
+									}
+									break
+								}
+								if ia, isIdx := a.(*ssa.IndexAddr); isIdx {
+									_, isSlice := ia.X.Type().Underlying().(*types.Slice) // not the array behind a variadic argument list
+									return isSlice
+								}
+								return false
+							}
+							c, ok := in.(*ssa.Call)
+							if !ok {
+								return false
+							}
+							bi, ok := c.Call.Value.(*ssa.Builtin)
+							return ok && bi.Name() == "append"
+						}
+						collects := false
+						eachInstr(cb, func(in ssa.Instruction) {
+							if c, ok := in.(*ssa.Call); ok {
+								if bi, ok := c.Call.Value.(*ssa.Builtin); ok && bi.Name() == "append" {
+									collects = true
+								}
+							}
+						})
+						if collects {
+							skip := ""
+							for _, b := range cb.Blocks {
+								ifi, isIf := lastIf(b)
+								if !isIf {
+									continue
+								}
+								reachRetNoAppend := func(start *ssa.BasicBlock) bool {
+									return (PathQuery{Fn: cb, StartBlock: start, Block: isAppend, Target: func(in ssa.Instruction) bool { _, ok := in.(*ssa.Return); return ok }}).Search() != nil
+								}
+								reachAppend := func(start *ssa.BasicBlock) bool {
+									return (PathQuery{Fn: cb, StartBlock: start, Target: isAppend}).Search() != nil
+								}
+								s0, s1 := b.Succs[0], b.Succs[1]
+								decides := (reachRetNoAppend(s0) && !reachAppend(s0) && reachAppend(s1)) || (reachRetNoAppend(s1) && !reachAppend(s1) && reachAppend(s0))
+								if !decides {
+									continue
+								}
+								sl := backSlice(ifi.Cond)
+								admitted := sl.Any(func(v ssa.Value) bool {
+									if ta, ok := v.(*ssa.TypeAssert); ok && ta.CommaOk {
+										return true
+									}
+									if c, ok := v.(*ssa.Call); ok {
+										if bi, ok := c.Call.Value.(*ssa.Builtin); ok && bi.Name() == "len" {
+											return true
+										}
+									}
+									return false
+								})
+								if !admitted && skip == "" {
+									skip = P.Pos(ifi.Pos())
+								}
+							}
+							r.Check(skip == "", "R4", fmt.Sprintf("x/%s#%s#lists-every-element", gm.Name, fnID(cb)), P.Pos(fnPos(cb)), "the collecting callback skips elements only by dynamic type / address length",
+								"a collecting callback on the export path of "+gm.Name+" returns without appending under the condition at "+skip+": the elements it skips (e.g. token pairs whose conversion is switched off) are missing from the exported document and from the chain started from it — lookups answer differently, the entry can be registered a second time")
+						}
+					}
 					r.Check(bad == "", "R4", fmt.Sprintf("x/%s#%s#never-stops", gm.Name, fnID(cb)), P.Pos(fnPos(cb)), "export callback always returns false", "an iteration on the export path of "+gm.Name+" can stop early (callback returns something other than false at "+bad+"): later entries are missing from the exported genesis")
 				}
 			})
